@@ -19,9 +19,11 @@ def run(ctx):
     ctx.rule("C18.R2", "K6", "each handle_request sibling counts every request exactly once before the app call; limit test `nr >= max_requests` after the increment clears `alive`; keep-alive capable workers force close")
     ctx.rule("C18.R3", "K2", "the request that reaches the limit is still answered: no exit before resp.close() depends on the limit or on `alive`")
     ctx.rule("C18.R4", "K2/K4", "(= C03.R2/R6 + C04.R3) the worker leaves its loop and the master replaces it")
+    ctx.rule("C18.R5", "K2", "the (non-concurrent) sync worker re-checks `alive` between any two accepts")
     r1(ctx)
     r2(ctx)
     r3(ctx)
+    r5(ctx)
     _alias(ctx, c03.r2, "C03.R2", "C18.R4")
     _alias(ctx, c04.r3, "C04.R3", "C18.R4")
 
@@ -126,3 +128,29 @@ def r3(ctx):
                       "`%s` decides whether the request is abandoned (`%s`) before resp.close(): the request that reaches max_requests would be dropped" % (t.text, sorted(n.text for n in dep)[0] if dep else ""),
                       "the limit-reaching request is answered")
         ctx.count("limit/alive tests", len(tests))
+
+
+def r5(ctx):
+    repo = ctx.repo
+    n = 0
+    for nm in ("run_for_one", "run_for_multiple"):
+        f = ctx.fn(repo.func("gunicorn.workers.sync.SyncWorker." + nm))
+        g = f.cfg
+        acc = [x for c in method_calls(f, "accept") if tail(c.func.value) == "self" for x in nodes_with(f, c)]
+        ctx.need(acc, "C18.R5: %s never accepts" % nm)
+        alive_true = [(t, "true") for t in g.tests() if isinstance(t.ast, ast.Attribute) and t.ast.attr == "alive"]
+        alive_false = [(t, "false") for t in g.tests() if isinstance(t.ast, ast.Attribute) and t.ast.attr == "alive"]
+        for a in acc:
+            n += 1
+            # from one accept to the next accept (possibly itself) without taking an `alive is true` edge
+            bad = None
+            for b, l in a.out:
+                if l == "exc":
+                    continue
+                p = g.path(b, acc, without_edges=alive_true, follow_exc=False) if b not in acc else [b]
+                if p is not None:
+                    bad = [a] + p
+            ctx.check("C18.R5", bad is None, key(f, "alive-between-accepts"), site(f, a),
+                      "after a request (which may have reached max_requests or seen TERM and cleared `alive`) the sync worker can accept another connection without re-checking `alive` "
+                      "(several listeners ready at once): it handles more than max_requests + jitter", "`alive` re-checked before every accept", path=bad and g.fmt_path(bad))
+    ctx.floor("C18.R5", "accept sites in the sync loops", n, 2)
